@@ -667,6 +667,56 @@ def _planner_guard(ctx, v: FuncView, node) -> bool:
     return False
 
 
+def check_record_counters(ctx, res: Result, cls: str, rule="P-COUNT"):
+    """A table of the class that some method decrements by one per removed record (`self._times[t] -= 1`) counts RECORDS.  Its
+    increment in add_edge therefore stands on the branch that creates a record (the branch of the `_edge_list[key] = id` store): an
+    increment that also runs when the key exists already (add_edge then only merges the weight) counts insertions, and the count
+    never returns to zero after the record is removed."""
+    res.rules.setdefault(rule, "a per-key record counter that is decremented per removed record is incremented in add_edge only on the branch that creates a record (never on the path that merges into an existing one)")
+    ms = ctx.methods(cls)
+    dec = {}
+    for name_, mfi in ms.items():
+        for n in ast.walk(mfi.node):
+            if isinstance(n, ast.AugAssign) and isinstance(n.op, ast.Sub) and isinstance(n.value, ast.Constant) and n.value.value == 1 and isinstance(n.target, ast.Subscript) and is_self_attr(n.target.value):
+                dec.setdefault(n.target.value.attr, (mfi, n))
+    add = ms.get("add_edge")
+    if not dec or add is None:
+        res.ok(rule, cls, "no per-key record counter", "scan", loc(add, add.node) if add is not None else cls)
+        return
+    v = ctx.view(add)
+    f = add.short
+    creates = [o for o in v.ops() if o.table == "_edge_list" and o.op == "store"]
+    for attr, (dfi, dn) in sorted(dec.items()):
+        incs = []
+        for n in walk_no_nested(add.node):
+            tg = None
+            if isinstance(n, ast.AugAssign) and isinstance(n.op, ast.Add) and isinstance(n.value, ast.Constant) and n.value.value == 1:
+                tg = n.target
+            elif isinstance(n, ast.Assign) and len(n.targets) == 1 and isinstance(n.value, ast.BinOp) and isinstance(n.value.op, ast.Add) and isinstance(n.value.right, ast.Constant) and n.value.right.value == 1:
+                tg = n.targets[0]
+            if isinstance(tg, ast.Subscript) and is_self_attr(tg.value) and tg.value.attr == attr:
+                incs.append(n)
+        if not incs:
+            res.unknown(rule, f, f"self.{attr}[...] += 1", attr, f"`{attr}` is decremented in {dfi.short} but no increment was recognised in add_edge", loc(add, add.node))
+            continue
+        for inc in incs:
+            iid = v.cfg_id(inc)
+            guarded = None
+            for c_ in creates:
+                sid = v.cfg_id(c_.node)
+                for iff in v.enclosing_all(c_.node, (ast.If,)):
+                    tid = v.cfg.by_ast.get(id(iff.test))
+                    if tid is None or sid is None or iid is None:
+                        continue
+                    for lab in ("T", "F"):
+                        if v.cfg.branch_dominated(tid, lab, sid):
+                            guarded = v.cfg.branch_dominated(tid, lab, iid) or bool(guarded)
+            if guarded is None:
+                res.unknown(rule, f, norm(inc), attr, "the branch that creates a record was not recognised", loc(add, inc))
+            else:
+                res.check(guarded, rule, f, norm(inc), attr, f"`{norm(inc)[:60]}` runs on every call of add_edge, also when the key exists already and only the weight is merged; {dfi.short} takes one off per removed RECORD (`{norm(dn)}`), so after a repeated insertion the count of `{attr}` never returns to zero and what is derived from its keys (min / max / membership) reports something that has no record", loc(add, inc))
+
+
 def check_weight_accumulation_guarded(ctx, res: Result, cls: str, rule="P-ACCUM"):
     """Wherever a record's weight is ADDED to (`self._weights[id] += w`) - add_edge on an existing key, a hand-written merge in
     remove_node(keep_edges=True) - the hypergraph must be weighted: in an unweighted one every weight stays 1 (re-insertion is
@@ -1036,7 +1086,8 @@ def check_remove_node(ctx, res: Result, cls: str):
     # merges the weight into an existing record; skipping it when the key exists drops the weight of the removed record
     for c in [n for n in walk_no_nested(v.fi.node) if isinstance(n, ast.Call) and isinstance(n.func, ast.Attribute) and is_self_attr(n.func) and n.func.attr == "add_edge" and n.args]:
         cid = _cfgid(v, c)
-        if not any(v.cfg.reachable(_cfgid(v, r), cid) for r in calls):
+        # (Hypergraph.remove_node re-inserts first and removes the collected records after the loop)
+        if not any(v.cfg.reachable(_cfgid(v, r), cid) or v.cfg.reachable(cid, _cfgid(v, r)) for r in calls):
             continue
         verdict, why = "ok", ""
         for iff in walk_no_nested(v.fi.node):
